@@ -572,6 +572,13 @@ def gl6(prog):
             a = cs.args[-1]
             fresh = False
             desc = show(a)
+            if len(cs.args) < target.argc:
+                # the call goes through a forwarding wrapper that the program model has folded into the worker
+                # (`fn cond_with_fresh_memo(b, l, v) { self.cond_with_alloc(b, l, v, &mut HashMap::new()) }`): the folding
+                # is only done for a wrapper that hands the worker a container it has just made
+                out.append(inst("GL", "%s:GL6:memo-fresh" % fn.npath, OK, fn, cs.line,
+                                "the per-call memo is made by the forwarding wrapper the call goes through"))
+                continue
             if isinstance(a, tuple) and a[0] == "mutref":
                 # value of the map local on entry to the call block
                 v = te.state_in.get(cs.bb, {}).get(a[1])
